@@ -69,6 +69,11 @@ pub(crate) fn now_millis_str() -> String {
     }
 }
 
+/// Make every later `now_millis_str()` return a value greater than `min`.
+pub(crate) fn ensure_millis_after(min: u64) {
+    LAST_MILLIS.fetch_max(min, Ordering::AcqRel);
+}
+
 pub(crate) fn checksum64(data: &[u8]) -> u64 {
     // FNV-1a 64-bit checksum
     const FNV_OFFSET: u64 = 0xcbf29ce484222325;
